@@ -359,13 +359,30 @@ func (e *c04Exec) subRun(z zoneCfg) (out []string, sdig string, infra string) {
 				// The isolated execution is pinned to the instant the shared execution actually used.
 				// The statement asks for ONE instant per evaluation, not for the instant of entry: an
 				// implementation may read the clock anywhere between entry and return.
+				// How the instant is kept is the library's business: the context field the harness can
+				// see (Context.Now) is used when it holds a value; when it does not (e.g. an
+				// implementation that reads the clock lazily into a field of its own) the instant can only
+				// be pinned if the clock did not move during the call.
 				entry := got.Entry
-				if got.NowSet && !got.HasTime {
-					if got.CtxNow.Before(got.Entry) || got.CtxNow.After(got.Exit) {
-						e.violate("clock", "now-outside-evaluation", fmt.Sprintf("client %d op %d (%s %q): the evaluation used the instant %s, but the clock showed %s when Evaluate was entered and %s when it returned",
-							ci, oi, op.Kind, c.Programs[op.Prog].Src, got.CtxNow.Format(time.RFC3339Nano), got.Entry.Format(time.RFC3339Nano), got.Exit.Format(time.RFC3339Nano)))
+				pinned := true
+				if !got.HasTime {
+					switch {
+					case got.NowSet && !got.CtxNow.IsZero():
+						if got.CtxNow.Before(got.Entry) || got.CtxNow.After(got.Exit) {
+							e.violate("clock", "now-outside-evaluation", fmt.Sprintf("client %d op %d (%s %q): the evaluation used the instant %s, but the clock showed %s when Evaluate was entered and %s when it returned",
+								ci, oi, op.Kind, c.Programs[op.Prog].Src, got.CtxNow.Format(time.RFC3339Nano), got.Entry.Format(time.RFC3339Nano), got.Exit.Format(time.RFC3339Nano)))
+						}
+						entry = got.CtxNow
+					case !got.Entry.Equal(got.Exit):
+						pinned = false
 					}
-					entry = got.CtxNow
+				}
+				if !pinned && timeDependent(c.Programs[op.Prog].Src) {
+					v.Stats.probe("time-dependent-op-not-pinned")
+					if msg := clockOracle(op, c.Programs[op.Prog].Src, &got); msg != "" {
+						e.violate("clock", "now-value", fmt.Sprintf("client %d op %d (%s %q): %s", ci, oi, op.Kind, c.Programs[op.Prog].Src, msg))
+					}
+					continue
 				}
 				ref := execOp(op, oc, fresh, in2, &entry)
 				r.setRootOp(nil)
@@ -437,24 +454,38 @@ func outcomeClass(a, b string) string {
 // clockOracle is the independent (non-differential) check of the three time
 // functions: it computes the expected text from the entry instant with Go's own
 // time formatting and compares instants, dates and times of day.
+// mustBeTrue: programs whose value is fixed by "one instant per evaluation", whatever that instant is.
+var mustBeTrue = map[string]bool{
+	"now().t1() = now()": true, "today().t1().select(today()) = today()": true, "timeOfDay().t1().select(timeOfDay()).y() = timeOfDay()": true,
+	"now() = now()": true, "today() = today()": true, "timeOfDay() = timeOfDay()": true,
+}
+
 func clockOracle(op *Op, src string, got *opResult) string {
 	if op.Kind != "eval" || op.FailN != 0 {
 		return ""
 	}
 	s := strings.TrimSpace(src)
+	if mustBeTrue[s] {
+		if got.Outcome != "ok[system.Boolean(true);]" {
+			return "the time functions of one evaluation must agree, but the outcome is " + short(got.Outcome, 200)
+		}
+		return ""
+	}
 	if s != "now()" && s != "today()" && s != "timeOfDay()" {
 		return ""
 	}
-	want := got.Entry
-	if got.NowSet {
-		want = got.CtxNow // one instant per evaluation, read anywhere between entry and return (checked by the caller)
+	// the instant: the override if given, else what the context carried, else anything between entry and return
+	lo, hi := got.Entry, got.Exit
+	if got.NowSet && !got.CtxNow.IsZero() {
+		lo, hi = got.CtxNow, got.CtxNow
 	}
 	for _, o := range op.Opts {
 		if o.Kind == "time" {
-			want = time.UnixMilli(o.TimeMs).UTC()
+			want := time.UnixMilli(o.TimeMs).UTC()
 			if o.OffMin != 0 {
 				want = want.In(time.FixedZone("", o.OffMin*60))
 			}
+			lo, hi = want, want
 		}
 	}
 	o := got.Outcome
@@ -466,22 +497,23 @@ func clockOracle(op *Op, src string, got *opResult) string {
 		return "unparseable outcome " + short(o, 200)
 	}
 	text := o[i+1 : j]
+	window := fmt.Sprintf("between %s and %s", lo.Format(time.RFC3339Nano), hi.Format(time.RFC3339Nano))
 	switch s {
 	case "now()":
 		t, err := time.Parse("2006-01-02T15:04:05.000Z07:00", text)
 		if err != nil {
 			return "now() rendered as " + text + ": " + err.Error()
 		}
-		if !t.Equal(want.Truncate(time.Millisecond)) {
-			return fmt.Sprintf("now() = %s but the clock showed %s when Evaluate was entered", text, want.Format(time.RFC3339Nano))
+		if t.Before(lo.Truncate(time.Millisecond)) || t.After(hi) {
+			return fmt.Sprintf("now() = %s but the evaluation's instant lies %s", text, window)
 		}
 	case "today()":
-		if text != want.Format("2006-01-02") {
-			return fmt.Sprintf("today() = %s but the clock showed %s when Evaluate was entered", text, want.Format(time.RFC3339Nano))
+		if text < lo.Format("2006-01-02") || text > hi.In(lo.Location()).Format("2006-01-02") {
+			return fmt.Sprintf("today() = %s but the evaluation's instant lies %s", text, window)
 		}
 	case "timeOfDay()":
-		if text != want.Format("15:04:05.000") {
-			return fmt.Sprintf("timeOfDay() = %s but the clock showed %s when Evaluate was entered", text, want.Format(time.RFC3339Nano))
+		if lo.Format("2006-01-02") == hi.In(lo.Location()).Format("2006-01-02") && (text < lo.Format("15:04:05.000") || text > hi.In(lo.Location()).Format("15:04:05.000")) {
+			return fmt.Sprintf("timeOfDay() = %s but the evaluation's instant lies %s", text, window)
 		}
 	}
 	return ""
